@@ -179,10 +179,14 @@ extern int mpt_graph_set(MPT_STRUCT(graph) *gr, const char *name, MPT_INTERFACE(
 		}
 		return len;
 	}
-	if (!strcmp(name, "type") || !strcasecmp(name, "gridtype")) {
+	if (!strcmp(name, "type") || !strcmp(name, "grid") || !strcasecmp(name, "gridtype")) {
 		if (!src || !(len = src->_vptr->convert(src, 'c', &gr->grid))) {
 			gr->grid = def_graph.grid;
 			return 0;
+		}
+		/* value of listed property type */
+		if (len < 0 && !(len = src->_vptr->convert(src, 'y', &gr->grid))) {
+			gr->grid = def_graph.grid;
 		}
 		return len < 0 ? len : 0;
 	}
